@@ -60,9 +60,7 @@ def run(tier):
     # a differ that talks on stderr while it succeeds (GIT_TRACE=1): status and output must be what they are without the talk;
     # a wrapped command that complains a lot (4 000 lines, far more than a pipe holds, on stderr before it writes to stdout): the
     # scenarios in which delta runs a command and the consumer stays are run a second time with such a command
-    n_plain = len(scenarios)
-    scenarios = scenarios + [sc for sc in scenarios if sc["mode"] in ("wrap", "diff") and sc["quit"] == 0 and sc["wf"] == "none"]
-    log(f"[{PID}] fault space enumerated by TLC: {n_plain} scenarios ({mc.distinct} states), {len(scenarios) - n_plain} of them repeated with a noisy command")
+    log(f"[{PID}] fault space enumerated by TLC: {len(scenarios)} scenarios ({mc.distinct} states), {sum(sc['noisy'] for sc in scenarios)} of them with a program that talks on stderr")
     work = os.path.join(core.scratch(), "c18")
     os.makedirs(work, exist_ok=True)
     pagers = os.path.join(core.FIXBIN, "pagers")
@@ -103,7 +101,7 @@ def run(tier):
         elif sc["mode"] == "diff" and sc["how"] == "badopt":
             args += ["-@--no-such-differ-option", fa, fa]
         elif sc["mode"] == "diff":
-            if idx >= n_plain and sc["status"] in (0, 1):
+            if sc["noisy"] and sc["status"] in (0, 1):
                 # a differ that talks on stderr while it succeeds (traces, warnings about its configuration).  (With the stub
                 # git in front delta finds no git version and uses diff(1); here it finds the real git and runs git diff --no-index.)
                 env["GIT_TRACE"] = "1"
@@ -117,7 +115,7 @@ def run(tier):
         else:
             env["STUB_OUT"] = big_grep_out if sc["big"] else grep_out
             env["STUB_EXIT"] = str(sc["status"])
-            if idx >= n_plain:
+            if sc["noisy"]:
                 env["STUB_ERR_LINES"] = "4000"
             args += ["git", "grep", "-n", "foo"]
         if sc["out"] == "pager":
@@ -203,17 +201,12 @@ def run(tier):
             gbytes, ghash = (int(got[0].split()[1]), int(got[0].split()[2]) % 1000000007) if got else (0, 0)
         else:
             gbytes, ghash = len(r.out), fnv(r.out)
-        events.append({"run": i, "sc": sc, "code": 999 if r.timed_out else r.code, "stderr": 1 if r.err.strip() else 0,
+        events.append({"run": i, "sc": sc, "code": 999 if r.timed_out else r.code, "stderr": 1 if r.err.strip() else 0, "errLines": r.err.count(b"\n"),
                        "hit": sc["quit"] > 0 and ref_writes >= sc["quit"], "pager": pager, "rflag": ("--RAW-CONTROL-CHARS" in pargs or "-R" in pargs.split("\x1f")),
                        "got": gbytes, "sent": len(ref.out), "gotHash": ghash, "sentHash": fnv(ref.out),
                        "pagerDoneFirst": "done" in plog and "delta-exit" in plog and plog.index("done") < plog.index("delta-exit"),
                        "plog": [l.split(" ")[0] for l in plog if l.split(" ")[0] in ("start", "got", "done", "delta-exit")],
                        "allowed": allowed_logs.get((sc["quit"] > 0, bool(sc["stay"])), [])})
-    for i, (sc, r, plog, ref, ref_writes) in enumerate(res):
-        # (status 129 - git rejected an option -: delta shows the first line only, the usage text that follows is left out)
-        if sc.get("_idx", 0) >= n_plain and sc["mode"] == "wrap" and not r.timed_out and sc["status"] != 129 and r.err.count(b"\n") < 4000:
-            V.violation(f"stderr-lost:{sc['out']}:{sc['status']}", f"of the 4000 lines the wrapped command wrote to stderr only {r.err.count(chr(10).encode())} "
-                        f"arrived (output to {sc['out']}, child status {sc['status']})", {"scenario": sc, "run": r.to_json()})
     failed, tr = tlc.validate_trace("Trace_Pager", events)
     log(f"[{PID}] {len(events)} scenario runs judged by TLC (Trace_Pager), {len(failed)} rejected")
     for f in failed:
